@@ -290,6 +290,10 @@ class AsyncClient(base_client.BaseClient):
                 break
             await self._receive_packet(pkt)
 
+        if self.state != 'connected':
+            # the connection ended while its handshake was being handled
+            return
+
         if 'websocket' in self.upgrades and 'websocket' in self.transports:
             # attempt to upgrade to websocket
             if await self._connect_websocket(url, headers, engineio_path):
